@@ -53,3 +53,22 @@ PROPS["C06"] = {
         {"bin": "c06", "quick": {"cases": 4000, "workers": 16, "budget": 150}, "thorough": {"cases": 40000, "workers": 16, "budget": 1200}},
     ],
 }
+
+PROPS["C07"] = {
+    "level": "exploration",
+    "rule": "rapidcheck-generated (catalogue entry x channels x N x sample type/style x two independent partitions P, Q into write calls with item/frame mixes, Q optionally with SFC_UPDATE_HEADER_NOW after calls x two pinned clock values); "
+            "oracle: bytes(P,t1) == bytes(Q,t1), bytes(P,t1) == bytes(P,t2) after masking the PEAK timestamp (and the MAT5 header date text); non-trivial = N >= 1, P != Q and a call boundary not aligned to the codec block; distinct = hash of (format, channels, N, type, P, Q)",
+    "assumptions": BASE_ASSUME + ["the process clock is pinned by linking the harness with --wrap=time,gettimeofday; 'another process' is approximated by a second run in the same process with a different clock value (process isolation proper is C19)"],
+    "stages": [
+        {"bin": "c07", "quick": {"cases": 6000, "workers": 16, "budget": 150}, "thorough": {"cases": 40000, "workers": 16, "budget": 1200}},
+    ],
+}
+PROPS["C11"] = {
+    "level": "exploration",
+    "rule": "rapidcheck-generated write histories on every container with a rewritable header (all but RAW; CAF/ALAC excluded by the statement): partition into write calls with explicit SFC_UPDATE_HEADER_NOW at random points or SFC_SET_UPDATE_HEADER_AUTO; crash point = byte image of the virtual file right after each update / each write in auto mode, parsed by an independent handle; "
+            "non-trivial = a second or later snapshot taken at a position that is not a multiple of the block length (any second snapshot for sample-granular encodings); distinct = hash of (format, channels, N, type, partition, mode). coverage.snapshots_checked counts the crash points examined",
+    "assumptions": BASE_ASSUME + ["a crash is modelled as a copy of the bytes the virtual I/O layer had accepted when the update returned (no partial write of the update itself)"],
+    "stages": [
+        {"bin": "c11", "quick": {"cases": 5000, "workers": 16, "budget": 150}, "thorough": {"cases": 40000, "workers": 16, "budget": 1200}},
+    ],
+}
